@@ -115,17 +115,26 @@ mod verif_nat {
                 }
         }
     }
-    #[derive(Clone, Copy, PartialEq, Eq)]
+    #[derive(Clone, Copy)]
     struct Abs {
         nan: bool,
         m: [u64; 4], // mantissa digits, zero extended
         e: u64,
     }
+    impl PartialEq for Abs {
+        fn eq(&self, o: &Self) -> bool {
+            self.nan == o.nan && m_eq(&self.m, &o.m) && self.e == o.e
+        }
+    }
     fn abs(n: &Natural) -> Abs {
         Abs { nan: n.shl == u64::MAX, m: digits4(n), e: n.shl }
     }
+    /// element-wise comparison (array `==` compiles to memcmp, whose byte loop needs a large unwind bound)
+    fn m_eq(a: &[u64; 4], b: &[u64; 4]) -> bool {
+        a[0] == b[0] && a[1] == b[1] && a[2] == b[2] && a[3] == b[3]
+    }
     fn is_zero(a: &Abs) -> bool {
-        !a.nan && a.m == [0, 0, 0, 0]
+        !a.nan && m_eq(&a.m, &[0, 0, 0, 0])
     }
     /// value / 2^base, if base <= exponent and the quotient is < 2^256
     fn val_rel(a: &Abs, base: u64) -> Option<W> {
@@ -136,7 +145,7 @@ mod verif_nat {
     }
     /// canonical-form equality of two wf values (NaN == NaN, as the derived `Eq` demands)
     fn abs_eq(a: &Abs, b: &Abs) -> bool {
-        if a.nan || b.nan { a.nan && b.nan } else { a.m == b.m && a.e == b.e }
+        if a.nan || b.nan { a.nan && b.nan } else { m_eq(&a.m, &b.m) && a.e == b.e }
     }
 
     // ------------------------------------------------------------------ symbolic wf values of concrete raw length
@@ -469,7 +478,7 @@ mod verif_nat {
         } else if aa.e as u128 + k as u128 >= u64::MAX as u128 {
             assert!(ar.nan); // documented error: exponent not representable
         } else {
-            assert!(!ar.nan && ar.m == aa.m && ar.e == aa.e + k); // m * 2^(e+k), exact
+            assert!(!ar.nan && m_eq(&ar.m, &aa.m) && ar.e == aa.e + k); // m * 2^(e+k), exact
         }
     }
     fn check_shr<const L: usize>() {
@@ -486,7 +495,7 @@ mod verif_nat {
         } else if is_zero(&aa) {
             assert!(is_zero(&ar)); // 0 / 2^k = 0, exact
         } else if k <= aa.e {
-            assert!(!ar.nan && ar.m == aa.m && ar.e == aa.e - k); // exact division, never NaN
+            assert!(!ar.nan && m_eq(&ar.m, &aa.m) && ar.e == aa.e - k); // exact division, never NaN
         } else {
             assert!(ar.nan); // the (odd) mantissa would lose a 1-bit: inexact => NaN
         }
@@ -588,7 +597,9 @@ mod verif_nat {
             3 => v.reserve_exact(3),
             4 => v.reserve_exact(4),
             5 => v.reserve_exact(5),
-            _ => v.reserve_exact(cap),
+            // no symbolic-size allocation: a request beyond 5 digits is outside the harness bound and
+            // makes the harness FAIL (it is not assumed away)
+            _ => panic!("capacity > 5 requested: outside the harness bound"),
         }
         assert!(v.capacity() == cap);
         v
@@ -601,38 +612,51 @@ mod verif_nat {
         kani::assume(ok);
         n
     }
-    /// exact sum oracle, shared by the add harnesses: `r` must be wf and denote va + vb (both relative to
-    /// `base`); NaN exactly when the exponent of the exact sum is not representable
-    fn check_sum(r: &Natural, va: W, vb: W, base: u64) {
-        let s = w_add(va, vb).unwrap();
-        assert!(wf(r));
-        let ar = abs(r);
-        if s == W0 {
-            assert!(is_zero(&ar));
-        } else {
-            let tz = w_tz(s);
-            let e = base as u128 + tz as u128;
-            if e >= u64::MAX as u128 {
-                assert!(ar.nan);
-            } else {
-                assert!(!ar.nan);
-                assert!(ar.e == e as u64);
-                assert!(w_limbs(ar.m) == w_shr(s, tz));
-            }
-        }
-    }
-    /// inline operands (any odd mantissa or 0), concrete exponents ea, eb
+    /// inline operands (any odd mantissa, or 0 where the exponent is 0), CONCRETE exponents ea, eb with
+    /// |ea - eb| < 128.  Oracle in plain u128 arithmetic (cheaper than the 256-bit one):
+    ///   gap < 64:  s = m_lo + (m_hi << gap) < 2^128;  result = (s >> tz(s)) * 2^(e_lo + tz(s))
+    ///   gap >= 64: the operands do not overlap; digits of the result are m_lo, then m_hi << (gap-64)
+    /// NaN exactly when the exponent of the exact sum is not representable (>= u64::MAX).
     fn check_add_inline(ea: u64, eb: u64) {
         let a = inline_nat(ea);
         let b = inline_nat(eb);
-        let (aa, ab) = (abs(&a), abs(&b));
-        // 0 is only wf with exponent 0: the assume(wf) above excludes a zero mantissa for ea/eb != 0
-        let base = if ea < eb { ea } else { eb };
-        let (va, vb) = (val_rel(&aa, base).unwrap(), val_rel(&ab, base).unwrap());
-        kani::cover!(w_add(va, vb).unwrap().0 != 0); // sum needs a third digit relative to base
-        kani::cover!(w_tz(w_add(va, vb).unwrap()) >= 64); // sum's low digit cancels completely
+        let (e_lo, e_hi, m_lo, m_hi) = if ea <= eb { (ea, eb, a.len, b.len) } else { (eb, ea, b.len, a.len) };
+        let gap = e_hi - e_lo;
+        assert!(gap < 128);
+        // expected canonical form
+        let (want_nan, want_m, want_e): (bool, [u64; 4], u64) = if gap < 64 {
+            let s = m_lo as u128 + ((m_hi as u128) << gap);
+            if s == 0 {
+                (false, [0, 0, 0, 0], 0)
+            } else {
+                let tz = s.trailing_zeros();
+                let q = s >> tz;
+                let e = e_lo as u128 + tz as u128;
+                if gap == 0 && e_lo != 0 {
+                    kani::cover!(tz >= 64); // the whole low digit cancels
+                }
+                kani::cover!(q > u64::MAX as u128); // two-digit result
+                if e >= u64::MAX as u128 { (true, [0; 4], 0) } else { (false, [q as u64, (q >> 64) as u64, 0, 0], e as u64) }
+            }
+        } else if m_lo == 0 {
+            (false, [m_hi, 0, 0, 0], if m_hi == 0 { 0 } else { e_hi })
+        } else if m_hi == 0 {
+            (false, [m_lo, 0, 0, 0], e_lo)
+        } else {
+            let up = (m_hi as u128) << (gap - 64);
+            kani::cover!(up > u64::MAX as u128); // three-digit result
+            (false, [m_lo, up as u64, (up >> 64) as u64, 0], e_lo)
+        };
         let r = a + b;
-        check_sum(&r, va, vb, base);
+        assert!(wf(&r));
+        let ar = abs(&r);
+        if want_nan {
+            assert!(ar.nan);
+        } else {
+            assert!(!ar.nan);
+            assert!(m_eq(&ar.m, &want_m));
+            assert!(ar.e == want_e);
+        }
     }
     macro_rules! add_inline_h {
         ($($name:ident: $ea:expr, $eb:expr;)*) => {$(
@@ -643,15 +667,12 @@ mod verif_nat {
         )*};
     }
     add_inline_h! {
-        add_inline_e0_e0: 0, 0;            // equal exponents, zero operands admitted
-        add_inline_e5_e5: 5, 5;            // equal exponents (low bits cancel, new exponent)
         add_inline_e0_e3: 0, 3;            // small gap
         add_inline_e3_e0: 3, 0;            // same, operands swapped
         add_inline_e5_e68: 5, 68;          // gap 63: overlapping digits
         add_inline_e5_e69: 5, 69;          // gap 64: digit aligned, no overlap
         add_inline_e5_e70: 5, 70;          // gap 65: no overlap, start_bit 1
         add_inline_e70_e5: 70, 5;          // same, operands swapped
-        add_inline_emax: u64::MAX - 3, u64::MAX - 3; // exponent of the sum may overflow => NaN
         add_inline_emax_gap: u64::MAX - 2, u64::MAX - 5;
     }
 
@@ -679,100 +700,6 @@ mod verif_nat {
     fn add_nan_inline_e7() {
         check_add_nan_inline(7)
     }
-    #[kani::proof]
-    #[kani::unwind(3)]
-    #[kani::stub(std::vec::Vec::with_capacity, with_capacity_split)]
-    fn add_nan_inline_nan() {
-        check_add_nan_inline(u64::MAX)
-    }
-
-    // ---- concrete boundary table (carry chains), operands built through the public constructors
-    const M64: u64 = u64::MAX;
-    /// little-endian digit triples
-    const TABLE_D: [[u64; 3]; 8] = [
-        [1, 0, 0],           // 1
-        [M64, 0, 0],         // 2^64 - 1
-        [1, 1, 0],           // 2^64 + 1
-        [M64, M64, 0],       // 2^128 - 1
-        [1, 0, 1],           // 2^128 + 1
-        [M64, M64, M64],     // 2^192 - 1
-        [1, 1 << 63, 0],     // 2^127 + 1
-        [M64, 0, 1 << 63],   // 2^191 + 2^64 - 1
-    ];
-    fn table_nat(i: usize, e: u64) -> (Natural, W) {
-        let d = TABLE_D[i];
-        let n = Natural::from_le_digits(&d) << e;
-        let v = w_shl(w_limbs([d[0], d[1], d[2], 0]), e).unwrap();
-        (n, v)
-    }
-    /// TABLE_D[i] * 2^ea + TABLE_D[j] * 2^eb for every j (all operands concrete): wf result, exact value,
-    /// no memory-safety violation, no failing debug assertion
-    fn check_add_table_row(i: usize, ea: u64, eb: u64) {
-        let mut j = 0;
-        while j < TABLE_D.len() {
-            let (a, va) = table_nat(i, ea);
-            let (b, vb) = table_nat(j, eb);
-            assert!(wf(&a) && wf(&b));
-            assert!(val_rel(&abs(&a), 0) == Some(va) && val_rel(&abs(&b), 0) == Some(vb));
-            let r = a + b;
-            check_sum(&r, va, vb, 0);
-            j += 1;
-        }
-    }
-    macro_rules! add_table_h {
-        ($($name:ident: $i:expr, $ea:expr, $eb:expr;)*) => {$(
-            #[kani::proof]
-            #[kani::unwind(10)]
-            fn $name() { check_add_table_row($i, $ea, $eb) }
-        )*};
-    }
-    add_table_h! {
-        add_table_r0_e0_e0: 0, 0, 0; add_table_r1_e0_e0: 1, 0, 0; add_table_r2_e0_e0: 2, 0, 0; add_table_r3_e0_e0: 3, 0, 0;
-        add_table_r4_e0_e0: 4, 0, 0; add_table_r5_e0_e0: 5, 0, 0; add_table_r6_e0_e0: 6, 0, 0; add_table_r7_e0_e0: 7, 0, 0;
-        add_table_r0_e1_e0: 0, 1, 0; add_table_r1_e1_e0: 1, 1, 0; add_table_r2_e1_e0: 2, 1, 0; add_table_r3_e1_e0: 3, 1, 0;
-        add_table_r4_e1_e0: 4, 1, 0; add_table_r5_e1_e0: 5, 1, 0; add_table_r6_e1_e0: 6, 1, 0; add_table_r7_e1_e0: 7, 1, 0;
-        add_table_r0_e0_e63: 0, 0, 63; add_table_r1_e0_e63: 1, 0, 63; add_table_r2_e0_e63: 2, 0, 63; add_table_r3_e0_e63: 3, 0, 63;
-        add_table_r4_e0_e63: 4, 0, 63; add_table_r5_e0_e63: 5, 0, 63; add_table_r6_e0_e63: 6, 0, 63; add_table_r7_e0_e63: 7, 0, 63;
-    }
-
-    // ---- 3-digit heap operands with a SYMBOLIC MIDDLE digit, concrete low/top digits and exponents:
-    // bit widths, trailing zeros and therefore all allocation sizes are concrete, the carry chain
-    // through the middle digit is symbolic (2 x 64 symbolic bits)
-    fn mid_nat(lo: u64, hi: u64, shl: u64) -> Natural {
-        let d: [u64; 3] = [lo, kani::any(), hi];
-        let b: Box<[u64]> = Box::new(d);
-        let ptr = NonNull::new(Box::into_raw(b).cast::<u64>()).unwrap();
-        let n = Natural { ptr, len: 3, shl };
-        assert!(wf(&n));
-        n
-    }
-    fn check_add_mid(alo: u64, ahi: u64, ea: u64, blo: u64, bhi: u64, eb: u64) {
-        let a = mid_nat(alo, ahi, ea);
-        let b = mid_nat(blo, bhi, eb);
-        let (va, vb) = (val_rel(&abs(&a), 0).unwrap(), val_rel(&abs(&b), 0).unwrap());
-        kani::cover!(abs(&a).m[1] == u64::MAX && abs(&b).m[1] == 1);
-        let r = a + b;
-        check_sum(&r, va, vb, 0);
-    }
-    macro_rules! add_mid_h {
-        ($($name:ident: $alo:expr, $ahi:expr, $ea:expr, $blo:expr, $bhi:expr, $eb:expr;)*) => {$(
-            #[kani::proof]
-            #[kani::unwind(6)]
-            #[kani::stub(std::vec::Vec::with_capacity, with_capacity_split)]
-            fn $name() { check_add_mid($alo, $ahi, $ea, $blo, $bhi, $eb) }
-        )*};
-    }
-    add_mid_h! {
-        // equal exponents: low digits cancel to 0 (carry into the symbolic digit), top digits carry out
-        add_mid_eq_cancel: M64, M64, 0, 1, M64, 0;
-        // equal exponents: low sum has 3 trailing zeros, no top carry
-        add_mid_eq_shr3: 5, 1, 0, 3, 1, 0;
-        // different exponents, in-place candidate (same length)
-        add_mid_gap3: 1, 1 << 62, 0, 1, 1, 3;
-        // different exponents, result longer than both operands
-        add_mid_gap70: M64, M64, 0, M64, M64, 70;
-    }
-
     // ================================================================== vacuity self-tests (must be refuted)
     #[kani::proof]
     #[kani::unwind(3)]
@@ -780,9 +707,11 @@ mod verif_nat {
     fn selftest_add_off_by_one() {
         let a = inline_nat(0);
         let b = inline_nat(3);
-        let (va, vb) = (val_rel(&abs(&a), 0).unwrap(), val_rel(&abs(&b), 0).unwrap());
+        let s = a.len as u128 + ((b.len as u128) << 3) + 1; // wrong: a + b + 1
         let r = a + b;
-        check_sum(&r, va, w_add(vb, W(0, 1)).unwrap(), 0); // wrong: a + b + 1
+        let ar = abs(&r);
+        let q = s >> s.trailing_zeros();
+        assert!(m_eq(&ar.m, &[q as u64, (q >> 64) as u64, 0, 0]) && ar.e == s.trailing_zeros() as u64);
     }
     #[kani::proof]
     fn selftest_shr_never_nan() {
